@@ -73,6 +73,16 @@ def programs(tier):
     add('implicit-attributes-with-entities', doc(el('img', static=[['alt', 'Tom &amp; Jerry'], ['title', 'a &lt; b &#169;'], ['src', 'a.png']]),
                                                  el('img', static=[['alt', 'Tom &amp; Jerry']], i18n_attributes='alt')),
         [], options={'implicit_i18n_attributes': ['alt', 'title']})
+    # the fallback of tal:on-error is translated with the settings of the element that carries it, also when the
+    # failure happened under a descendant that had changed them
+    add('on-error-fallback-translated', doc(el('div', el('p', el('span', el('b', 'Label', i18n_translate=''), {'interp': py('L(0)')},
+                                                                  i18n_domain='inner', i18n_context='widget', i18n_target="'xx'"),
+                                                       onerror=['text', py("'Something failed'")], i18n_translate=''),
+                                               el('em', 'After', i18n_translate=''), i18n_domain='outer', i18n_context='page')),
+        [[0, 'out3', 0]])
+    # attributes named in i18n:attributes that the element does not have: appended in the order of the statement
+    add('translation-only-attributes', doc(el('img', static=[['src', 'a.png']], attributes=[['width', py('w')]],
+                                              i18n_attributes='title; alt; longdesc; width; summary')), [['w', 'int', 0]])
     add('implicit-and-explicit', doc(el('img', static=[['alt', ['Logo of ', I('site')]], ['title', 'T']],
                                         i18n_attributes='alt; title')),
         [['site', 'int', 0]], options={'implicit_i18n_attributes': ['alt', 'title']})
